@@ -134,6 +134,19 @@ def check(ctx, case, obs):
             ctx.count("model:fromjson-choices:unsupported")
             if r.get("ok"):
                 ctx.mismatch("fromJsonC rejects a dict fromJson accepts", case, "ok", "unsupported")
+        # the builder model with the choices context (FromJsonSelects.lean: selects that carry their options get
+        # the survey-level Itemset); tied by this stream only (no theorem yet)
+        rs = ctx.driver.call("tojson.reload_tree_selects", d=want, names=_ctor)
+        if rs.get("ok"):
+            ctx.count("model:fromjson-selects:answered")
+            w2 = C.enc(jsonable(obs["j2"]))
+            if rs["dump"] != w2:
+                ctx.mismatch("ToJson.toJson (fromJsonS dump) vs dump of the reloaded survey", case,
+                             C.dict_diff(unwire(w2), unwire(rs["dump"])), "see diff (impl vs model)")
+        else:
+            ctx.count("model:fromjson-selects:unsupported")
+            if rc.get("ok"):
+                ctx.mismatch("fromJsonS rejects a dict fromJsonC accepts", case, "ok", "unsupported")
     # options: model dump / reload / dump against the implementation's Option(**dump).to_json_dict()
     import inspect
 
